@@ -10,11 +10,15 @@ fn patterns(max_cols: usize) -> Vec<Vec<&'static str>> {
     all_seqs(ATOMS.len(), max_cols).into_iter().filter(|s| !s.is_empty()).map(|s| s.into_iter().map(|i| ATOMS[i]).collect()).collect()
 }
 
+/// A pattern cell: `*` matches anything; `(x|y|...)` matches exactly the listed alternatives
+/// (each a literal text, so `(*)` matches only the text `*`); anything else is a literal.
 fn atom_matches(atom: &str, f: &str) -> bool {
-    match atom {
-        "*" => true,
-        "(a|b)" => f == "a" || f == "b",
-        x => x == f,
+    if atom == "*" {
+        true
+    } else if atom.len() >= 2 && atom.starts_with('(') && atom.ends_with(')') {
+        atom[1..atom.len() - 1].split('|').any(|x| x == f)
+    } else {
+        atom == f
     }
 }
 
@@ -195,6 +199,51 @@ pub fn run(tier: Tier) -> i32 {
             }
         }
     }
+    // group corners: cells that look like the wildcard or like a literal but are groups
+    {
+        let cells = ["*", "(*)", "(a)", "(*|a)", "((a))", "()", "(a|)", "a"];
+        let vals = ["a", "*", "(a)", "", "b"];
+        let mut pats: Vec<Vec<&str>> = vec![];
+        for c in cells {
+            pats.push(vec![c]);
+        }
+        for c in cells {
+            for d in cells {
+                pats.push(vec![c, d]);
+            }
+        }
+        let mut flists: Vec<Vec<String>> = vec![];
+        for v in vals {
+            flists.push(vec![v.to_string()]);
+            for w in vals {
+                flists.push(vec![v.to_string(), w.to_string()]);
+            }
+        }
+        let np = pats.len();
+        let res = par_explore(np, |ti, st| {
+            for second in 0..=np {
+                let mut rules = vec![rule(0, &pats[ti])];
+                if second < np {
+                    rules.push(rule(1, &pats[second]));
+                }
+                for f in &flists {
+                    st.states += 1;
+                    st.transitions += 1;
+                    st.count("group_corner_cases");
+                    let want = reference(&rules, f);
+                    match guard(|| rewrite(&rules, f)) {
+                        Ok(g) if g == want => {}
+                        other => st.violation(Finding {
+                            class: "group-cell-semantics".into(),
+                            what: format!("rules {:?} on features {:?}: got {:?}, expected {:?}", rules.iter().map(|(p, _)| p.join(",")).collect::<Vec<_>>(), f, other, want),
+                            replay: json!({"kind": "rewrite", "rules": rules.iter().map(|(p, o)| format!("{} {}", p.join(","), o.join(","))).collect::<Vec<_>>(), "features": f}),
+                        }),
+                    }
+                }
+            }
+        });
+        st.merge(res);
+    }
     // every output list of <= 3/4 items over {$1..$6, k} (runs of consecutive references, repeated
     // and descending references, references past the end) on feature lists of 0-4 columns
     {
@@ -226,7 +275,7 @@ pub fn run(tier: Tier) -> i32 {
     // dictionary level: the trainer applies each section's rewriter and falls back to the
     // ORIGINAL features when that section has no matching rule
     crate::props::train::dict_level_c17(tier, &mut st);
-    rep.rule = "state = (ordered rule list of <= 3/4 rules whose patterns have 1-2 (thorough also 1-3) columns over {*, a, b, (a|b)} and whose output names the rule and references $1,$2,$3; feature list of length 0-3 over {a,b,c}); the real rewriter (rule-list hook and rewrite.def text with all section assignments of two rules) must return what the first rule in list order that matches position-wise as a prefix returns, or nothing; every output list of <= 3/4 items over {$1..$6, k} on lists of 0-4 columns, and $1..$25 on long lists; plus, for really trained models whose rewrite.def has sections with and without catch-all rules, the connection classes and bigram.left/right tuples must be those of the reference rewrite (else: features unchanged) followed by the reference expansion; distinct = distinct outputs".into();
+    rep.rule = "state = (ordered rule list of <= 3/4 rules whose patterns have 1-2 (thorough also 1-3) columns over {*, a, b, (a|b)} and whose output names the rule and references $1,$2,$3; feature list of length 0-3 over {a,b,c}); the real rewriter (rule-list hook and rewrite.def text with all section assignments of two rules) must return what the first rule in list order that matches position-wise as a prefix returns, or nothing; every output list of <= 3/4 items over {$1..$6, k} on lists of 0-4 columns, every list of <= 2 rules with cells from {*, (*), (a), (*|a), ((a)), (), (a|), a} on 1-2 feature values from {a, *, (a), '', b}, and $1..$25 on long lists; plus, for really trained models whose rewrite.def has sections with and without catch-all rules, the connection classes and bigram.left/right tuples must be those of the reference rewrite (else: features unchanged) followed by the reference expansion; distinct = distinct outputs".into();
     rep.bounds = json!({"max_rules": tier.pick(3, 4), "pattern_columns": tier.pick("1-2", "1-2 (4 rules), 1-3 (3 rules)"), "feature_len": "0-3"});
     rep.assumptions = vec!["a pattern longer than the feature list does not match (the statement is silent; the code agrees)".into()];
     rep.finish(
@@ -238,6 +287,7 @@ pub fn run(tier: Tier) -> i32 {
             "rewrite_def_text_cases",
             "two_digit_reference_cases",
             "output_list_cases",
+            "group_corner_cases",
             "trained_models_with_rewrite_rules",
             "rows_checked_for_connection_classes",
         ],
